@@ -143,6 +143,9 @@ Proof.
   - by move=> x _ [<-]; rewrite v_assign_from_spec; exact: wf_vec_of.
   - by move=> n _ [<-]; rewrite v_assign_from_spec /v_zero /vfill /wf_vec /= ?natE size_tab.
   - by move=> _ [<-].
+  - by move=> _; rewrite /v_normalize; case: (vnorm _ _) => //= nrm; exact: K2.
+  - move=> _; rewrite /v_normalized; case: (vnorm _ _) => //= nrm [<-].
+    by rewrite v_assign_from_spec; exact: wf_vec_of.
 Qed.
 Lemma life_v_spec vs k o vs' : life_v Ops vs k o = Ok vs' ->
   [/\ k < size vs, size vs' = size vs, v_mut Ops vs (nth dv vs k) o = Ok (nth dv vs' k) &
